@@ -74,7 +74,7 @@ def build(ctx):
     ctx.assumptions = ["arbitrary prior image; geometry in front of the filled header within bounds (numInGroup <= %d, data length <= %d, wire blockLength == compiled); numInGroup argument over the whole range of its type" % (G, D),
                        "header layouts enumerated: schemas/vs_hdr_a..e (reordered members, custom offsets + gaps + extra members, mixed integer widths, numGroups/numVarDataFields, ref-typed members) and vs_msg_le/be"]
     fam = ["vs_hdr_%s.xml" % k for k in "abcde"]
-    plan = [(x, "17") for x in fam] + [("vs_hdr_b.xml", "20"), ("vs_msg_be.xml", "17")] if ctx.quick else [(x, s) for s in ("11", "14", "17", "20") for x in fam + ["vs_msg_le.xml", "vs_msg_be.xml"]]
+    plan = [(x, "17") for x in fam] + [("vs_hdr_b.xml", "20"), ("vs_msg_be.xml", "17"), ("vs_msg2_le.xml", "17")] if ctx.quick else [(x, s) for s in ("11", "14", "17", "20") for x in fam + ["vs_msg_le.xml", "vs_msg_be.xml", "vs_msg2_le.xml", "vs_msg2_be.xml"]]
     plan = hgen.plan_env(plan, 2)
     for (xml, std) in plan:
         path = ctx.schema(xml)
@@ -106,4 +106,37 @@ def build(ctx):
                                     meta={"big_loops": ["ref_walk_%s.%d" % (msg.name, x) for x in range(16)]},
                                     desc="%s.%s: %s writes exactly the schema constants (and the numInGroup argument) at the model's member offsets; frame elsewhere; returns the header view" % (sch.ns, msg.name, a[0]),
                                     bounds={"N": N, "G": G, "D": D, "std": "c++" + std, "byte_order": "BE" if sch.be else "LE"}))
+    # ---- block lengths beyond 16 bits (vs_hdr_f, both byte orders are pointless here: the point is the width of the written value); handcrafted: the blocks themselves are not in the buffer
+    for std in (("17",) if ctx.quick else ("11", "17", "20")):
+        path = ctx.schema("vs_hdr_f.xml")
+        rc, out, inc = ctx.slot.generate(path)
+        if rc != 0: raise P.EngineError("sbeppc rejects vs_hdr_f.xml: %s" % out[-400:])
+        sch = M.Schema(path)
+        for msg in sch.messages:
+            g = msggen.MG(sch, msg, 1)
+            u = ctx.lower("c17_%s_%s" % (sch.ns, msg.name), g.cpp_prelude() + cpp(g), std=std, mode="checked", incs=[inc])
+            al = arms(g, sch)
+            if msg.name == "big":
+                N = g.HDR + 3
+                body = "  enum { N = %d };\n  IN_BYTES(buf, N); unsigned char old[N]; verif_copy(old, buf, N);\n  {\n%s  }\n" % (N, al[0][1])
+                label = "fillmsg"
+            else:
+                gr = msg.groups[0]; hf = M.header_fields(gr.dim); hp = g.HDR + msg.block_length; N = hp + gr.dim.size + 2
+                tab = const_table(hf, {"blockLength": gr.block_length}, g.be); on, pnn = hf["numInGroup"]
+                obl = g.hdr["blockLength"][0]
+                body = "  enum { N = %d };\n  IN_BYTES(buf, N);\n" % N
+                body += "".join("  buf[%d] = %d;\n" % (obl + k, (msg.block_length >> (8 * k)) & 255) for k in range(SZ[g.hdr["blockLength"][1]]))
+                body += "  unsigned char old[N]; verif_copy(old, buf, N);\n  IN(u64, num); VASSUME(num <= 255); i64 ho = -1;\n"
+                body += "  CALL(ho = fillgrp_%s_%s(buf, N, 0, 0, num));\n" % (g.M, pn((gr.name,)))
+                body += '  VASSERT(!verif_aborted, "no handler"); VASSERT(ho == %d, "fill_group_header returns a view of that group header");\n' % hp
+                exp = {hp + o_: v_ for (o_, v_) in tab}
+                body += "  for (unsigned i = 0; i < N; i++) {\n"
+                for pos_, v_ in sorted(exp.items()):
+                    body += '    if (i == %d) { VASSERT(buf[i] == %d, "group blockLength == the schema value (all bytes of a block length >= 2^16)"); continue; }\n' % (pos_, v_)
+                body += '    if (i == %d) { VASSERT(buf[i] == (unsigned char)num, "numInGroup == the argument"); continue; }\n' % (hp + on)
+                body += '    VASSERT(buf[i] == old[i], "no byte outside the filled header members is touched");\n  }\n'
+                label = "fillgrp_gb"
+            hs.append(P.Harness("%s_%s_%s_bigblock_cxx%s" % (sch.ns, msg.name, label, std), hgen.harness([u], body), [u], unwind=4, cap=ctx.q(120, 600), extra_flags=["--no-standard-checks"],
+                                desc="%s.%s: %s with a blockLength >= 2^16 (uint32 blockLength member): every byte of the value is written" % (sch.ns, msg.name, label),
+                                bounds={"blockLength": msg.block_length if msg.name == "big" else msg.groups[0].block_length, "std": "c++" + std}))
     return hs
